@@ -308,3 +308,20 @@ def index_used(ip, k) -> None:
     for other in list(s.idx):
         for pw in list(s.pointwise):
             pw(other)
+
+
+def all_hook(ip, S, node=None):
+    """all(<bool element> for k < n) over a symbolic-length sequence: a forall-prefix fold (intro by Skolem, elimination at
+    every index term in use).  The elements are evaluated without forking (comparisons only)."""
+    from pyvc.values import SBool
+    n = ip.models.len_term(S.n)
+    cnt = ip.path.ghost.setdefault("all_counter", [0])
+    cnt[0] += 1
+    name = f"ALLOF_{getattr(node, 'lineno', 0)}_{cnt[0]}"
+
+    def pred(k):
+        v = ip.as_bool_term(S.get(k))
+        return z3.BoolVal(v) if isinstance(v, bool) else v
+    P = named_forall(ip, name, [], n, pred)
+    saturate(ip)
+    return SBool(P(n))
